@@ -23,11 +23,12 @@ EXTENDS Layout, NdMapFn, TLC
 
 CONSTANTS Slots, Types, ExtChoices, Vals, MaxOps, AssignImpl, WM,
           Ops,     \* the operations enabled in this configuration (subset of AllOps)
-          ConstructSlots  \* slots in which Construct may be used (bounds who is addressed, not only how many)
+          ConstructSlots, \* slots in which Construct may be used (bounds who is addressed, not only how many)
+          Unbounded       \* TRUE: no bound on the history length; freed block ids are recycled so that the state space is finite
 
 \* Types is a set of layout names; a field type is (layout, dimensionality of its extents)
 NullBlk == 0
-BlkIds == 1..(3 * MaxOps + 2)
+BlkIds == IF Unbounded THEN 1..(Cardinality(Slots) + 2) ELSE 1..(3 * MaxOps + 2)
 
 VARIABLES slot, heap, model, nblk, err, stream, ops
 vars == <<slot, heap, model, nblk, err, stream, ops>>
@@ -47,14 +48,19 @@ Init == /\ slot = [s \in Slots |-> Dead]
 Alloc(h, b, n) == [h EXCEPT ![b] = [st |-> "live", cells |-> ZeroCells(n)]]       \* make_unique<T[]>(n): value-initialised
 FreeOf(h, b) == IF b = NullBlk THEN h ELSE [h EXCEPT ![b].st = "freed"]           \* ~unique_ptr
 FreeErr(h, b) == IF b # NullBlk /\ h[b].st # "live" THEN "double-free" ELSE ""
-Tick == ops' = ops + 1 /\ ops < MaxOps
+Tick == IF Unbounded THEN ops' = ops ELSE (ops' = ops + 1 /\ ops < MaxOps)
+\* the id of a freshly allocated block: never reused in bounded mode (a dangling pointer can then never be mistaken for a fresh
+\* block); in unbounded mode the smallest id that is not live is recycled - sound for the repaired model, in which no slot
+\* ever keeps a pointer to a freed block (NoUseAfterFree is checked in every state)
+NewBlk == IF Unbounded THEN CHOOSE b \in BlkIds : heap[b].st # "live" /\ \A c \in BlkIds : c < b => heap[c].st = "live" ELSE nblk + 1
+Bump(b) == nblk' = IF Unbounded THEN nblk ELSE b
 
 \* ------------------------------------------------------------ operations
 \* field(parameter_pack): configuration + freshly allocated, zeroed storage of the size the layer needs
 Construct(s, ty, e) ==
   /\ slot[s].st = "dead" /\ Applicable(ty, e) /\ Tick
-  /\ LET b == nblk + 1  n == StorageSize(ty, e) IN
-       /\ nblk' = b
+  /\ LET b == NewBlk  n == StorageSize(ty, e) IN
+       /\ Bump(b)
        /\ heap' = Alloc(heap, b, n)
        /\ slot' = [slot EXCEPT ![s] = [st |-> "live", ty |-> ty, ext |-> e, blk |-> b, size |-> n]]
        /\ model' = [model EXCEPT ![s] = [c \in Box(e) |-> 0]]
@@ -73,8 +79,8 @@ Write(s, c, v) ==
 \* array::owning_data_t(const owning_data_t &): m_size(o.m_size), m_ptr(make_unique(m_size)), memcpy
 CopyCtor(d, s) ==
   /\ slot[d].st = "dead" /\ Live(s) /\ d # s /\ Tick
-  /\ LET b == nblk + 1 IN
-       /\ nblk' = b
+  /\ LET b == NewBlk IN
+       /\ Bump(b)
        /\ heap' = [Alloc(heap, b, slot[s].size) EXCEPT ![b].cells = heap[slot[s].blk].cells]
        /\ slot' = [slot EXCEPT ![d] = [slot[s] EXCEPT !.blk = b]]
        /\ model' = [model EXCEPT ![d] = model[s]]
@@ -91,10 +97,10 @@ MoveCtor(d, s) ==
 \*   m_size = o.m_size; m_ptr = make_unique(m_size) [allocates, then releases the old block]; memcpy from o
 CopyAssign(d, s) ==
   /\ Assignable(d) /\ Live(s) /\ d # s /\ slot[d].ty = slot[s].ty /\ Len(slot[d].ext) = Len(slot[s].ext) /\ Tick
-  /\ LET b == nblk + 1
+  /\ LET b == NewBlk
          h1 == Alloc(heap, b, slot[s].size)
          h2 == FreeOf(h1, slot[d].blk)
-     IN /\ nblk' = b
+     IN /\ Bump(b)
         /\ err' = IF FreeErr(h1, slot[d].blk) # "" THEN FreeErr(h1, slot[d].blk) ELSE err
         /\ heap' = [h2 EXCEPT ![b].cells = h2[slot[s].blk].cells]
         /\ slot' = [slot EXCEPT ![d] = [slot[s] EXCEPT !.blk = b]]
@@ -106,10 +112,10 @@ SelfCopyAssign(s) ==
   /\ Live(s) /\ Tick
   /\ IF AssignImpl = "fixed"
      THEN UNCHANGED <<slot, heap, model, nblk, err>>                    \* early return
-     ELSE LET b == nblk + 1                                              \* pinned: new zeroed block installed first,
+     ELSE LET b == NewBlk                                              \* pinned: new zeroed block installed first,
               h1 == Alloc(heap, b, slot[s].size)                         \* then "copied" from itself
               h2 == FreeOf(h1, slot[s].blk)
-          IN /\ nblk' = b /\ heap' = h2 /\ err' = err
+          IN /\ Bump(b) /\ heap' = h2 /\ err' = err
              /\ slot' = [slot EXCEPT ![s].blk = b]
              /\ model' = model                                           \* what the user is entitled to expect
   /\ UNCHANGED stream
@@ -134,12 +140,12 @@ SelfMoveAssign(s) ==
 Convert(d, s, ty2) ==
   /\ slot[d].st = "dead" /\ Live(s) /\ d # s /\ ty2 # slot[s].ty /\ Applicable(ty2, slot[s].ext) /\ Tick
   /\ LET e == slot[s].ext
-         b == nblk + 1
+         b == NewBlk
          n == StorageSize(ty2, e)
          src == heap[slot[s].blk].cells
          order == Visits(e)                                   \* the order nd_map invokes the copy lambda
          Step(cells, c) == [cells EXCEPT ![IdxOf(ty2, e, c)] = src[IdxOf(slot[s].ty, e, c)]]
-     IN /\ nblk' = b
+     IN /\ Bump(b)
         /\ heap' = [Alloc(heap, b, n) EXCEPT ![b].cells = FoldLeft(Step, ZeroCells(n), order)]
         /\ slot' = [slot EXCEPT ![d] = [st |-> "live", ty |-> ty2, ext |-> e, blk |-> b, size |-> n]]
         /\ model' = [model EXCEPT ![d] = model[s]]
@@ -150,11 +156,11 @@ Convert(d, s, ty2) ==
 ConvertMove(d, s, ty2) ==
   /\ slot[d].st = "dead" /\ Live(s) /\ d # s /\ ty2 # slot[s].ty /\ Applicable(ty2, slot[s].ext) /\ Tick
   /\ LET e == slot[s].ext
-         b == nblk + 1
+         b == NewBlk
          n == StorageSize(ty2, e)
          src == heap[slot[s].blk].cells
          Step(cells, c) == [cells EXCEPT ![IdxOf(ty2, e, c)] = src[IdxOf(slot[s].ty, e, c)]]
-     IN /\ nblk' = b
+     IN /\ Bump(b)
         /\ heap' = [Alloc(heap, b, n) EXCEPT ![b].cells = FoldLeft(Step, ZeroCells(n), Visits(e))]
         /\ slot' = [slot EXCEPT ![d] = [st |-> "live", ty |-> ty2, ext |-> e, blk |-> b, size |-> n], ![s].st = "unspec"]
         /\ model' = [model EXCEPT ![d] = model[s], ![s] = <<>>]
@@ -175,8 +181,8 @@ Dump(s) ==
 \* field(std::istream &) of the dumped type
 Load(d) ==
   /\ slot[d].st = "dead" /\ stream # <<>> /\ Tick
-  /\ LET b == nblk + 1 IN
-       /\ nblk' = b
+  /\ LET b == NewBlk IN
+       /\ Bump(b)
        /\ heap' = [Alloc(heap, b, stream.size) EXCEPT ![b].cells = stream.cells]
        /\ slot' = [slot EXCEPT ![d] = [st |-> "live", ty |-> stream.ty, ext |-> stream.ext, blk |-> b, size |-> stream.size]]
        /\ model' = [model EXCEPT ![d] = [c \in Box(stream.ext) |-> stream.cells[IdxOf(stream.ty, stream.ext, c)]]]
@@ -192,6 +198,7 @@ Destroy(s) ==
 
 AllOps == {"Construct", "Write", "CopyCtor", "MoveCtor", "CopyAssign", "MoveAssign", "Convert", "ConvertMove", "DefaultConstruct", "Dump", "Load", "Destroy"}
 BasicOps == AllOps \ {"ConvertMove", "DefaultConstruct"}
+CoreOps == {"Construct", "Write", "CopyCtor", "MoveCtor", "CopyAssign", "MoveAssign", "Convert", "Destroy"}
 ConvOps == {"Construct", "Write", "Convert", "ConvertMove"}
 On(op) == op \in Ops
 
@@ -246,6 +253,7 @@ Slots2 == {1, 2}
 Slots3 == {1, 2, 3}
 TypesA == {"strided", "morton"}
 TypesB == {"strided", "morton", "hilbert", "morton_portable"}
+ExtOne == {<<2, 1>>}
 Ext1 == {<<2>>, <<3>>}
 Ext2 == {<<2, 1>>, <<1, 3>>}
 Ext12 == {<<2>>, <<2, 2>>}
